@@ -224,6 +224,32 @@ Definition h_view (h : handle) (s : st) : st := hwrap (h_path h) (st_sub (h_d h)
 Definition h_upd (h : handle) (f : st -> st) (s : st) : st :=
   st_upd (h_d h) (fun u => hunwrap (length (h_path h)) (f (hwrap (h_path h) u))) s.
 
+(* ---- which stacks keep a live iterator predictable across Flush / DropNotFlushed ----
+   ASSUMPTION of the correspondence (not a theorem about the code): over an engine base (whose
+   iterators are consistent snapshots) with at most one tree-bearing layer, Flush/Drop only detach
+   the flushable's tree (gods Clear() leaves the nodes a live iterator walks intact) and write into
+   the engine, so an iterator created before them still yields what it would have yielded.  With a
+   second tree-bearing layer or a memory base, a flush mutates a tree in place under the iterator. *)
+Fixpoint st_trees (s : st) : nat :=
+  match s with
+  | Eng _ _ => 0
+  | Mem _ => 1
+  | Flu _ u => S (st_trees u)
+  | Lzy _ _ u => S (st_trees u)
+  | Tab _ u => st_trees u
+  | Syn u => st_trees u
+  end.
+Fixpoint st_engine_base (s : st) : bool :=
+  match s with
+  | Eng _ _ => true
+  | Mem _ => false
+  | Flu _ u => st_engine_base u
+  | Lzy _ _ u => st_engine_base u
+  | Tab _ u => st_engine_base u
+  | Syn u => st_engine_base u
+  end.
+Definition stack_lsafe (s : st) : bool := st_engine_base s && Nat.leb (st_trees s) 1.
+
 (* ---- running the operation language of spec/KvOps.v ---- *)
 Record rstate := { r_store : st; r_batches : list (handle * list wop); r_snaps : list st; r_lives : lives }.
 
